@@ -638,6 +638,28 @@ PROBE_TRAIT(probe_can_sub, std::declval<A>() - std::declval<B>())
 #include <utility>
 """)
 
+_s("std_traits", r"""
+        using Q = Quantity<Seconds, int>;
+        using P = QuantityPoint<Seconds, double>;
+        std::printf("std_traits hash %d %d %d | limits %d %d %d | common %d %d | triv %d %d %d %d\n", int(probe_hashable<Q>::value), int(probe_hashable<P>::value),
+                    int(probe_hashable<Quantity<Minutes, double>>::value), int(std::numeric_limits<Q>::is_specialized), int(std::numeric_limits<P>::is_specialized),
+                    int(std::numeric_limits<Q>::is_integer), int(probe_has_common<Q, Quantity<Minutes, double>>::value), int(probe_has_common<Q, int>::value),
+                    int(std::is_trivially_copyable<Q>::value), int(std::is_standard_layout<Q>::value), int(std::is_trivially_destructible<P>::value),
+                    int(std::is_nothrow_move_constructible<Q>::value));
+""", defs="""#include <functional>
+#include <limits>
+template <typename...>
+using probe_void2_t = void;
+template <typename T, typename = void>
+struct probe_hashable : std::false_type {};
+template <typename T>
+struct probe_hashable<T, probe_void2_t<decltype(std::hash<T>{}(std::declval<const T &>()))>> : std::true_type {};
+template <typename A, typename B, typename = void>
+struct probe_has_common : std::false_type {};
+template <typename A, typename B>
+struct probe_has_common<A, B, probe_void2_t<typename std::common_type<A, B>::type>> : std::true_type {};
+""")
+
 def names():
     return sorted(SNIPPETS)
 
